@@ -1,16 +1,22 @@
-//! C13: key derivation.  Real `SecureChannel::derive_keys` on a client-role and a server-role
-//! channel with the same pair of nonces; all derived bytes are printed (hook verif_derived_keys).
+//! C13: key derivation.  A HISTORY of OpenSecureChannel exchanges (issue + renewals) on ONE real
+//! client-role and ONE real server-role `SecureChannel`: per exchange the policy and both nonces
+//! are set again (peer nonce by `set_remote_nonce` or `set_remote_nonce_from_byte_string`), and
+//! `derive_keys` is called when the peer nonce was accepted.  After every exchange the stored key
+//! sets (hook verif_derived_keys) and the keys handed out by the private accessors the message
+//! securing code uses (hook verif_used_keys) are printed for both channels.
 #[path = "../util.rs"]
 mod util;
 use util::*;
 use opcua::core::comms::secure_channel::{Role, SecureChannel};
 use opcua::crypto::CertificateStore;
 use opcua::sync::RwLock;
-use opcua::types::DecodingOptions;
+use opcua::types::{ByteString, DecodingOptions};
 use std::sync::Arc;
 use opcua::crypto::SecurityPolicy;
 
-pub struct Case { policy: SecurityPolicy, client_nonce: Vec<u8>, server_nonce: Vec<u8> }
+#[derive(Clone)]
+pub struct Round { policy: SecurityPolicy, client_nonce: Vec<u8>, server_nonce: Vec<u8>, mode: u8 }
+pub struct Case { rounds: Vec<Round> }
 pub struct P;
 
 const POLICIES: [SecurityPolicy; 5] = [SecurityPolicy::Basic128Rsa15, SecurityPolicy::Basic256, SecurityPolicy::Basic256Sha256,
@@ -27,10 +33,18 @@ fn name(p: SecurityPolicy) -> &'static str {
         _ => "Aes256Sha256RsaPss",
     }
 }
-fn nonce(r: &mut Rng, policy: SecurityPolicy) -> Vec<u8> {
-    let len = match r.below(8) {
-        0 => 0, 1 => 1, 2 => 64, 3 => 63 + r.below(3) as usize % 2, 4 => r.below(65) as usize,
-        _ => policy.secure_channel_nonce_length(),
+/// nonce for an exchange; `strict` = it has to pass the length check of the byte string setter
+/// most of the time, with the neighbouring lengths and the OTHER policies' length as near misses
+fn nonce(r: &mut Rng, policy: SecurityPolicy, strict: bool) -> Vec<u8> {
+    let pl = policy.secure_channel_nonce_length();
+    let len = if strict {
+        match r.below(16) { 0 => pl - 1, 1 => pl + 1, 2 => 48 - pl, 3 => 0, _ => pl }
+    } else {
+        match r.below(10) {
+            0 => 0, 1 => 1, 2 => 64, 3 => 63 + r.below(2) as usize, 4 => r.below(65) as usize,
+            5 => 65 + r.below(40) as usize,         // longer than one HMAC block: the key is hashed first
+            _ => pl,
+        }
     };
     match r.below(5) {
         0 => vec![0u8; len], 1 => vec![0xffu8; len], 2 => vec![r.next() as u8; len],
@@ -41,48 +55,96 @@ fn enc_set(k: &(Vec<u8>, Vec<u8>, Vec<u8>), out: &mut Vec<i128>) {
     out.push(k.0.len() as i128); out.push(k.1.len() as i128); out.push(k.2.len() as i128);
     for b in k.0.iter().chain(k.1.iter()).chain(k.2.iter()) { out.push(*b as i128); }
 }
+fn obs(ch: &SecureChannel, out: &mut Vec<i128>) {
+    let (l, r) = ch.verif_derived_keys();
+    match l { Some(k) => enc_set(&k, out), None => out.push(-1) }
+    match r { Some(k) => enc_set(&k, out), None => out.push(-1) }
+    match ch.verif_used_keys() { Some((a, b)) => { enc_set(&a, out); enc_set(&b, out); } None => out.push(-1) }
+}
+/// one side of one exchange; returns 0 if the peer nonce was accepted (and keys derived), else 1
+fn side(ch: &mut SecureChannel, policy: SecurityPolicy, mode: u8, own: &[u8], peer: &[u8]) -> i128 {
+    ch.set_security_policy(policy);
+    ch.set_local_nonce(own);
+    let ok = match mode {
+        0 => { ch.set_remote_nonce(peer); true }
+        1 => ch.set_remote_nonce_from_byte_string(&ByteString::from(peer)).is_ok(),
+        _ => ch.set_remote_nonce_from_byte_string(&ByteString::null()).is_ok(),
+    };
+    if ok { ch.derive_keys(); 0 } else { 1 }
+}
+fn one(p: SecurityPolicy, c: Vec<u8>, s: Vec<u8>, mode: u8) -> Round { Round { policy: p, client_nonce: c, server_nonce: s, mode } }
 
 impl Property for P {
     type Case = Case;
     fn fixed(_tier: &str) -> Vec<Case> {
         let mut v = Vec::new();
-        for p in POLICIES {
+        for (i, p) in POLICIES.iter().enumerate() {
+            let p = *p;
             let n = p.secure_channel_nonce_length();
-            v.push(Case { policy: p, client_nonce: (0..n as u8).collect(), server_nonce: (100..100 + n as u8).collect() });
-            v.push(Case { policy: p, client_nonce: vec![], server_nonce: vec![] });
-            v.push(Case { policy: p, client_nonce: vec![0; n], server_nonce: vec![0; n] });
+            let a: Vec<u8> = (0..n as u8).collect(); let b: Vec<u8> = (100..100 + n as u8).collect();
+            v.push(Case { rounds: vec![one(p, a.clone(), b.clone(), 0)] });
+            // fixed {fix: HMAC / P_SHA key derivation panicked on an empty secret}: empty nonces
+            v.push(Case { rounds: vec![one(p, vec![], vec![], 0)] });
+            v.push(Case { rounds: vec![one(p, vec![0; n], vec![0; n], 0)] });
+            // issue, then a renewal with fresh nonces, then one with the old nonces again
+            v.push(Case { rounds: vec![one(p, a.clone(), b.clone(), 1), one(p, b.clone(), a.clone(), 1), one(p, a.clone(), b.clone(), 1)] });
+            // a renewal whose nonces are refused (one byte short / long / null) keeps the keys; the next one replaces them
+            let q = POLICIES[(i + 1) % 5];
+            let m = q.secure_channel_nonce_length();
+            v.push(Case { rounds: vec![one(p, a.clone(), b.clone(), 1), one(p, a[1..].to_vec(), b.clone(), 1), one(p, a.clone(), [&b[..], &[1]].concat(), 1),
+                                       one(p, b.clone(), a.clone(), 2), one(q, vec![5; m], vec![6; m], 1)] });
+            // the same nonces under another policy; only one nonce changed; a nonce shortened and grown again
+            v.push(Case { rounds: vec![one(p, vec![9; 32], vec![8; 32], 0), one(q, vec![9; 32], vec![8; 32], 0), one(q, vec![9; 32], vec![7; 32], 0),
+                                       one(q, vec![9; 3], vec![7; 32], 0), one(q, vec![9; 32], vec![7; 40], 0)] });
+            // first exchange refused: nothing derived yet
+            v.push(Case { rounds: vec![one(p, vec![1; n + 1], vec![2; n], 1), one(p, vec![1; n], vec![2; n], 1)] });
         }
-        // same nonce on both sides; nonce longer than one HMAC block is out of the protocol's range (<= 64 kept)
-        v.push(Case { policy: SecurityPolicy::Basic256Sha256, client_nonce: vec![7; 64], server_nonce: vec![7; 64] });
+        // same nonce on both sides; nonce of exactly one HMAC block, and longer (hashed key)
+        v.push(Case { rounds: vec![one(SecurityPolicy::Basic256Sha256, vec![7; 64], vec![7; 64], 0)] });
+        v.push(Case { rounds: vec![one(SecurityPolicy::Basic256, vec![7; 65], vec![3; 100], 0), one(SecurityPolicy::Basic256Sha256, vec![7; 65], vec![3; 100], 0)] });
         v
     }
     fn gen(r: &mut Rng) -> Case {
-        let policy = *r.pick(&POLICIES);
-        Case { policy, client_nonce: nonce(r, policy), server_nonce: nonce(r, policy) }
+        let n = match r.below(8) { 0 | 1 => 1, 2 | 3 | 4 => 2, 5 | 6 => 3, _ => 4 };
+        let mut rounds: Vec<Round> = Vec::new();
+        for i in 0..n {
+            let policy = if i > 0 && r.chance(1, 2) { rounds[i - 1].policy } else { *r.pick(&POLICIES) };
+            let mode = match r.below(10) { 0..=3 => 0u8, 4..=8 => 1, _ => 2 };
+            let mut rd = one(policy, nonce(r, policy, mode != 0), nonce(r, policy, mode != 0), mode);
+            if i > 0 {
+                // renewals that repeat all or part of the previous exchange
+                match r.below(8) {
+                    0 => { rd.client_nonce = rounds[i - 1].client_nonce.clone(); rd.server_nonce = rounds[i - 1].server_nonce.clone(); }
+                    1 => rd.client_nonce = rounds[i - 1].client_nonce.clone(),
+                    2 => rd.server_nonce = rounds[i - 1].server_nonce.clone(),
+                    3 => { rd.client_nonce = rounds[i - 1].server_nonce.clone(); rd.server_nonce = rounds[i - 1].client_nonce.clone(); }
+                    _ => {}
+                }
+            }
+            rounds.push(rd);
+        }
+        Case { rounds }
     }
     fn exec(c: &Case) -> Out {
-        let mut out = Vec::new();
         let res = guarded(|| {
+            let mut out = Vec::new();
             let mut client = channel(Role::Client);
-            client.set_security_policy(c.policy);
-            client.set_local_nonce(&c.client_nonce);
-            client.set_remote_nonce(&c.server_nonce);
-            client.derive_keys();
             let mut server = channel(Role::Server);
-            server.set_security_policy(c.policy);
-            server.set_local_nonce(&c.server_nonce);
-            server.set_remote_nonce(&c.client_nonce);
-            server.derive_keys();
-            (client.verif_derived_keys(), server.verif_derived_keys())
+            for rd in &c.rounds {
+                let stc = side(&mut client, rd.policy, rd.mode, &rd.client_nonce, &rd.server_nonce);
+                let sts = side(&mut server, rd.policy, rd.mode, &rd.server_nonce, &rd.client_nonce);
+                out.push(stc); out.push(sts);
+                obs(&client, &mut out); obs(&server, &mut out);
+            }
+            out
         });
-        match res {
-            Ok(((Some(cl), Some(cr)), (Some(sl), Some(sr)))) => { enc_set(&cl, &mut out); enc_set(&cr, &mut out); enc_set(&sl, &mut out); enc_set(&sr, &mut out); }
-            Ok(_) => out.push(-1),
-            Err(_) => out.push(-2),
-        }
-        let std = c.client_nonce.len() == c.policy.secure_channel_nonce_length() && c.server_nonce.len() == c.client_nonce.len();
-        let tag = format!("{}-{}", name(c.policy), if std { "policy-length" } else { "odd-length" });
-        let term = format!("(mk_case {} {} {})", name(c.policy), zbytes(&c.client_nonce), zbytes(&c.server_nonce));
+        let out = match res { Ok(o) => o, Err(_) => vec![-2] };
+        let refused = c.rounds.iter().any(|rd| rd.mode == 2 || (rd.mode == 1 && (rd.client_nonce.len() != rd.policy.secure_channel_nonce_length()
+            || rd.server_nonce.len() != rd.policy.secure_channel_nonce_length())));
+        let pols = c.rounds.windows(2).any(|w| w[0].policy != w[1].policy);
+        let tag = format!("{}-exchange{}{}{}", c.rounds.len(), if c.rounds.len() > 1 { "s" } else { "" },
+                          if pols { "-policy-change" } else { "" }, if refused { "-with-refused-nonce" } else { "" });
+        let term = format!("(mk_case {})", coq_list(&c.rounds, |rd| format!("(mk_round {} {} {} {})", name(rd.policy), zbytes(&rd.client_nonce), zbytes(&rd.server_nonce), rd.mode)));
         Out { tag, term, out }
     }
 }
